@@ -451,6 +451,7 @@ func genListCase(rt *rapid.T, maxN int) listCase {
 
 func init() {
 	replayRegistrars = append(replayRegistrars, func() {
+		registerReplay("C19/replaced-mounts", runReplaceCase)
 		registerReplay("C19/listings", func(c listCase) *fail { return runListCase(c, nil) })
 		registerReplay("C19/concurrent-listings", func(c listCase) *fail { return runConcListCase(c, 4) })
 	})
@@ -460,6 +461,20 @@ func TestC19(t *testing.T) {
 	h := begin(t, "C19")
 	defer h.Finish()
 	env := h.Env
+	// what a mount of a composed root is backed by is replaced between listings
+	rapidCases(h, "replaced-mounts", env.PerShard(env.Pick(320, 16000)), func(rt *rapid.T) replaceCase {
+		c := replaceCase{Server: rapid.Bool().Draw(rt, "server"), Count: rapid.SampledFrom([]uint32{40, 64, 4096}).Draw(rt, "count")}
+		for i := rapid.IntRange(1, 4).Draw(rt, "n"); i > 0; i-- {
+			c.Steps = append(c.Steps, rapid.SampledFrom([]string{"replace-dir", "replace-file", "file-to-dir", "dir-to-file", "touch", "list"}).Draw(rt, "step"))
+		}
+		return c
+	}, func(c replaceCase) *fail {
+		h.Case(evid.HashJSON(c), true, "replaced-mounts")
+		if h.WantSample("replaced-mounts") {
+			h.Sample("replaced-mounts", c)
+		}
+		return runReplaceCase(c)
+	})
 	if env.Shard == 0 {
 		for _, fs := range []string{"localfs", "staticfs", "composefs", "composefs-nested", "composefs-mount", "composefs-static-mount"} {
 			for _, n := range []int{0, 1, 2, 3, 10, 100} {
